@@ -8,6 +8,7 @@ package reconciling
 // ending) and in its original order - the lines before lineIndex keep their position, the others move down by
 // len(texts) - with one exception: the line directly before the insertion point gets the record's line ending if it
 // had none (the former last line of a file without final newline). The new lines form one contiguous block.
+//@ spec lineIs(l txt.Line, t insertableText, ind string, le string) bool = len(l.Text) + len(l.LineEnding) == t.indentation*len(ind) + len(t.text) + len(le) && forall(k, 0, len(t.text), txt.org(l, t.indentation*len(ind) + k) == t.text[k]) && forall(k, 0, len(le), txt.org(l, t.indentation*len(ind) + len(t.text) + k) == le[k])
 //@ func (*Reconciler).insert
 //@ requires r != nil && r.style != nil && 0 <= lineIndex && lineIndex <= len(r.lines) && forall(k, 0, len(texts), texts[k].indentation >= 0)
 //@ modifies r.lines
@@ -17,6 +18,12 @@ package reconciling
 //@ ensures forall(p, 0, lineIndex - 1, same(r.lines[p], old_lines[p]))
 //@ ensures implies(lineIndex > 0, same(r.lines[lineIndex-1].Text, old_lines[lineIndex-1].Text) && implies(old_lines[lineIndex-1].LineEnding != "", same(r.lines[lineIndex-1], old_lines[lineIndex-1])))
 //@ ensures forall(p, lineIndex + n, len(old_lines) + n, same(r.lines[p], old_lines[p - n]))
+// Property C11: each inserted line consists of (indentation level) x (length of the style's indentation sequence)
+// leading bytes, then the text byte for byte, then the style's line ending byte for byte, and nothing else (lineIs, over
+// the bytes of the line's original form Text + LineEnding). That the leading bytes are copies of the indentation
+// sequence is strings.Repeat's specification (dependency, A-STR).
+//@ ensures forall(p, lineIndex, lineIndex + n, lineIs(r.lines[p], texts[p - lineIndex], r.style.indentation.value, r.style.lineEnding.value))
+//@ loop 1 invariant forall(p, lineIndex, min(rangeindex + 1, lineIndex + len(texts)), lineIs(result[p], texts[p - lineIndex], r.style.indentation.value, r.style.lineEnding.value))
 //@ loop 1 invariant len(result) == len(r.lines) + len(texts) && same(r.lines, old(r.lines))
 //@ loop 1 invariant offset == min(max(rangeindex + 1 - lineIndex, 0), len(texts))
 //@ loop 1 invariant forall(p, 0, min(rangeindex + 1, lineIndex), same(result[p], r.lines[p]))
@@ -130,6 +137,8 @@ package reconciling
 // blank (a whitespace-only line before or after the record says nothing about how the record indents its entries);
 // the line ending is the one of the block's first line. Without such a line the defaults (four spaces, LF) stay,
 // marked as not explicit.
+//@ spec isIndent(s string) bool = s == "    " || s == "   " || s == "  " || s == "\t"
+//@ spec isLE(s string) bool = s == "\n" || s == "\r\n"
 //@ spec indented(l txt.Line) bool = !txt.blank(l) && txt.indentOf(l) != ""
 //@ func determine
 //@ requires typeis(r, *klog.record) && typeis(r.(*klog.record).date, *klog.date) && typeis(b, *txt.block)
@@ -141,14 +150,62 @@ package reconciling
 //@ ensures implies(len(ls) > 0 && ls[0].LineEnding != "", result.lineEnding.isExplicit && result.lineEnding.value == ls[0].LineEnding)
 //@ ensures implies(len(ls) == 0 || ls[0].LineEnding == "", !result.lineEnding.isExplicit && result.lineEnding.value == "\n")
 //@ ensures result.dateUseDashes.isExplicit && result.dateUseDashes.value == r.(*klog.record).date.(*klog.date).format.UseDashes
+// the style is always one the file format allows
+//@ ensures isIndent(result.indentation.value) && isLE(result.lineEnding.value)
 //@ loop 1 invariant fresh(s)
 //@ loop 2 invariant fresh(s) && !s.indentation.isExplicit && s.indentation.value == "    " && forall(k, 0, rangeindex+1, !indented(b.(*txt.block).lines[k]))
 
-// tallyUp: the winner of an election is determined by the votes alone (the output of a command is a function of the
-// file): stated for the election over placeholder lengths, whose keys are integers — every other value that received
-// votes has strictly fewer votes than the winner.
-//@ func (*election[int]).tallyUp
-//@ requires nonnil(e.votes)
-//@ ensures forall(k, -4611686018427387904, 4611686018427387904, implies(haskey(e.votes, k) && e.votes[k] > 0 && k != result, e.votes[k] < e.votes[result]))
-//@ loop 1 invariant max >= 0 && forall(k, -4611686018427387904, 4611686018427387904, implies(visited(k), haskey(e.votes, k) && e.votes[k] <= max))
-//@ loop 1 invariant implies(max > 0, visited(result) && e.votes[result] == max)
+// Elections. An election records, besides the number of votes per value, the order in which the values received
+// their first vote (e.order); every listed value has at least one vote.
+//@ spec elOk(votes map[T]int, order []T) bool = nonnil(votes) && forall(q, 0, len(order), votes[order[q]] >= 1)
+
+// vote: a style that is not explicit does not vote; an explicit one adds one vote for its value, which joins the end
+// of the order when it had no vote before. Nothing else changes.
+//@ func (*election[T]).vote
+//@ requires elOk(e.votes, e.order)
+//@ modifies e.order, mapof(e.votes)
+//@ ensures elOk(e.votes, e.order)
+//@ ensures implies(!style.isExplicit, same(e.order, old(e.order)))
+//@ ensures implies(style.isExplicit, e.votes[style.value] == old(e.votes[style.value]) + 1)
+//@ ensures implies(style.isExplicit && old(haskey(e.votes, style.value)), same(e.order, old(e.order)))
+//@ ensures implies(style.isExplicit && !old(haskey(e.votes, style.value)), len(e.order) == old(len(e.order)) + 1 && same(e.order[len(e.order)-1], style.value))
+//@ ensures forall(q, 0, old(len(e.order)), same(e.order[q], old(e.order[q])))
+
+// tallyUp: the winner is a function of the election's data alone (no map iteration): the value with the most votes,
+// and among several such values the one that was voted for first; the default when nobody voted. Formally: whenever
+// index p is the first index of e.order whose value has the maximal number of votes, the result is e.order[p].
+//@ func (*election[T]).tallyUp
+//@ requires elOk(e.votes, e.order)
+//@ ensures implies(len(e.order) == 0, same(result, defaultValue))
+//@ ensures forall(p, 0, len(e.order), implies(forall(q, 0, len(e.order), e.votes[e.order[q]] <= e.votes[e.order[p]]) && forall(q, 0, p, e.votes[e.order[q]] < e.votes[e.order[p]]), same(result, e.order[p])))
+// in particular: when all votes are for one value (the records that exhibit a style agree), that value wins
+//@ ensures implies(len(e.order) == 1, same(result, e.order[0]))
+//@ ensures same(result, defaultValue) || exists(p, 0, len(e.order), same(result, e.order[p]))
+//@ loop 1 invariant max >= 0 && implies(rangeindex < 0, max == 0 && same(result, defaultValue))
+//@ loop 1 invariant implies(rangeindex >= 0, exists(p, 0, rangeindex+1, same(result, e.order[p]) && max == e.votes[e.order[p]] && forall(q, 0, rangeindex+1, e.votes[e.order[q]] <= max) && forall(q, 0, p, e.votes[e.order[q]] < max)))
+
+// ascertain: a style that the target record itself exhibits wins; otherwise the election decides.
+//@ func ascertain
+//@ requires nonnil(e) && elOk(e.votes, e.order)
+//@ ensures result.isExplicit
+//@ ensures implies(defaultStyle.isExplicit, same(result, defaultStyle))
+//@ ensures same(result.value, defaultStyle.value) || exists(p, 0, len(e.order), same(result.value, e.order[p]))
+
+// elect: every property that the base style has explicitly (the target record exhibits it) is kept as it is; every
+// other property is decided by its election over all records, and is marked explicit afterwards.
+//@ func elect
+//@ requires len(rs) == len(bs)
+//@ requires forall(i, 0, len(rs), typeis(rs[i], *klog.record) && typeis(rs[i].(*klog.record).date, *klog.date) && typeis(bs[i], *txt.block))
+//@ requires forall(i, 0, len(rs), forall(j, 0, len(rs[i].(*klog.record).entries), klog.ekind(rs[i].(*klog.record).entries[j])))
+//@ requires isIndent(base.indentation.value) && isLE(base.lineEnding.value)
+//@ ensures fresh(result)
+//@ ensures isIndent(result.indentation.value) && isLE(result.lineEnding.value)
+//@ ensures result.lineEnding.isExplicit && result.indentation.isExplicit && result.dateUseDashes.isExplicit && result.timeUse24HourClock.isExplicit && result.rangesUseSpacesAroundDash.isExplicit && result.openRangeAdditionalPlaceholderChars.isExplicit
+//@ ensures implies(base.lineEnding.isExplicit, same(result.lineEnding, base.lineEnding))
+//@ ensures implies(base.indentation.isExplicit, same(result.indentation, base.indentation))
+//@ ensures implies(base.dateUseDashes.isExplicit, same(result.dateUseDashes, base.dateUseDashes))
+//@ ensures implies(base.timeUse24HourClock.isExplicit, same(result.timeUse24HourClock, base.timeUse24HourClock))
+//@ ensures implies(base.rangesUseSpacesAroundDash.isExplicit, same(result.rangesUseSpacesAroundDash, base.rangesUseSpacesAroundDash))
+//@ ensures implies(base.openRangeAdditionalPlaceholderChars.isExplicit, same(result.openRangeAdditionalPlaceholderChars, base.openRangeAdditionalPlaceholderChars))
+//@ loop 1 invariant forall(q, 0, len(indentationElection.order), isIndent(indentationElection.order[q])) && forall(q, 0, len(lineEndingElection.order), isLE(lineEndingElection.order[q]))
+//@ loop 1 invariant elOk(lineEndingElection.votes, lineEndingElection.order) && elOk(indentationElection.votes, indentationElection.order) && elOk(dateUseDashes.votes, dateUseDashes.order) && elOk(timeUse24HourClock.votes, timeUse24HourClock.order) && elOk(rangesUseSpacesAroundDash.votes, rangesUseSpacesAroundDash.order) && elOk(openRangeAdditionalPlaceholderChars.votes, openRangeAdditionalPlaceholderChars.order)
